@@ -66,6 +66,7 @@ type rigConf struct {
 	Horizon      time.Duration `json:"horizon"` // virtual time allowed after the last deviation
 	MinAge       time.Duration `json:"min_age"`
 	Compression  int           `json:"compression"`
+	SlowRead     bool          `json:"slow_read,omitempty"` // source file reads take time (see storeWrap.GetOpener)
 	// eligibility (C17)
 	IncludeHidden bool     `json:"include_hidden"`
 	Include       []string `json:"include"`
@@ -715,6 +716,33 @@ func (s *storeWrap) Sync(f sts.File) (sts.File, error) {
 		s.r.senderGone(s.gen)
 	}
 	return s.FileSource.Sync(f)
+}
+
+// GetOpener: with conf.SlowRead every read of a source file takes (virtual) time, as on a
+// busy disk or a network file system: the sender's threads then interleave in the middle of
+// encoding their payloads instead of running each request in one go.
+func (s *storeWrap) GetOpener() sts.Open {
+	open := s.FileSource.GetOpener()
+	if !s.r.conf.SlowRead {
+		return open
+	}
+	return func(f sts.File) (sts.Readable, error) {
+		rd, err := open(f)
+		if err != nil {
+			return rd, err
+		}
+		return &slowReadable{Readable: rd}, nil
+	}
+}
+
+type slowReadable struct{ sts.Readable }
+
+func (s *slowReadable) Read(p []byte) (int, error) {
+	time.Sleep(10 * time.Millisecond)
+	if len(p) > 512 {
+		p = p[:512] // and it comes in pieces
+	}
+	return s.Readable.Read(p)
 }
 
 func (s *storeWrap) Remove(f sts.File) error {
